@@ -64,6 +64,7 @@ def extract(repo):
     problems = []
     guard, test, succ, fail, tail, ident = [], "unrecognised", [], [], [], []
     start_ws, log_ws = [".other \"_start not read\""], [".other \"log not read\""]
+    shapes = {"start_action": ["<unread>"], "startTask": ["<unread>"], "log_message": ["<unread>"], "child": ["<unread>"]}
     try:
         tree = ast.parse((repo / "eliot" / "_action.py").read_text())
         consts = {n: const(tree, n) for n in ("SUCCEEDED_STATUS", "FAILED_STATUS", "STARTED_STATUS")}
@@ -84,6 +85,11 @@ def extract(repo):
         tail = [w_of(x, consts) for x in b[i:]]
         start_ws = [w_of(x, consts) for x in body_of(fns["_start"])]
         log_ws = [w_of(x, consts) for x in body_of(fns["log"])]
+        # the functions that decide WHERE a new action or message goes: their bodies, normalised, statement by statement
+        mod_fns = {n.name: n for n in tree.body if isinstance(n, ast.FunctionDef)}
+        for name, fn in (("start_action", mod_fns.get("start_action")), ("startTask", mod_fns.get("startTask")),
+                         ("log_message", mod_fns.get("log_message")), ("child", fns.get("child"))):
+            shapes[name] = [ast.unparse(x) for x in body_of(fn)] if fn is not None else ["<missing>"]
         # key order of self._identification (a dict display in __init__)
         for n in ast.walk(fns["__init__"]):
             if isinstance(n, ast.Assign) and ast.unparse(n.targets[0]) == "self._identification" and isinstance(n.value, ast.Dict):
@@ -102,6 +108,14 @@ def extract(repo):
             "/-- after either branch -/", "def tail : List W := [%s]" % ", ".join(tail), "",
             "/-- `Action._start(fields)`, statement by statement -/", "def startStmts : List W := [%s]" % ", ".join(start_ws), "",
             "/-- `Action.log(message_type, **fields)`, statement by statement -/", "def logStmts : List W := [%s]" % ", ".join(log_ws), "",
+            "/-- `start_action`: the parent is looked up when the action is created; none = a new task -/",
+            "def startActionBody : List String := [%s]" % ", ".join(q(x) for x in shapes["start_action"]), "",
+            "/-- `startTask` / `start_task`: always a new tree with a fresh uuid4 -/",
+            "def startTaskBody : List String := [%s]" % ", ".join(q(x) for x in shapes["startTask"]), "",
+            "/-- `log_message`: the current action, or a one-message task of its own -/",
+            "def logMessageBody : List String := [%s]" % ", ".join(q(x) for x in shapes["log_message"]), "",
+            "/-- `Action.child`: the parent's uuid and its next position -/",
+            "def childBody : List String := [%s]" % ", ".join(q(x) for x in shapes["child"]), "",
             "/-- keys of `self._identification`, in the order of the dict display in `Action.__init__` -/",
             "def identificationKeys : List String := [%s]" % ", ".join(q(x) for x in ident), "",
             "end Eliot.Generated.Finish", ""]
